@@ -377,6 +377,8 @@ pub struct Call {
 }
 
 thread_local! {
+    /// wall-clock reading taken right after the last PasetoBuilder::default() of this thread
+    pub static CREATED: RefCell<Option<time::OffsetDateTime>> = RefCell::new(None);
     /// completion time of every parse call of the current thread (for histories in which time passes)
     pub static PARSE_TIMES: RefCell<Vec<std::time::Instant>> = RefCell::new(Vec::new());
     static CALLS: RefCell<Vec<Call>> = RefCell::new(Vec::new());
@@ -441,6 +443,8 @@ pub enum BOp {
     /// v3/v4 only (ignored by the wrapper for v1/v2 where the method does not exist)
     SetAssertion(String),
     Build,
+    /// let time pass between two calls on the builder
+    Sleep(u64),
 }
 
 #[derive(Clone, Copy, Debug, PartialEq, Eq)]
@@ -523,6 +527,7 @@ macro_rules! run_generic_builder {
                     b.extend_claims(m);
                 }
                 BOp::Ack => {}
+                BOp::Sleep(ms) => std::thread::sleep(std::time::Duration::from_millis(*ms)),
                 BOp::SetFooter(f) => {
                     b.set_footer(Footer::from(f.as_str()));
                 }
@@ -550,10 +555,12 @@ macro_rules! run_prelude_builder {
     ($V:ident, $P:ident, $ops:expr, $key:expr, assert=$has:tt) => {{
         let mut outs: Vec<Out<String>> = Vec::new();
         let mut b = PasetoBuilder::<$V, $P>::default();
+        CREATED.with(|c| *c.borrow_mut() = Some(time::OffsetDateTime::now_utc()));
         for op in $ops.iter() {
             match op {
                 BOp::SetClaim { key, value, via } => apply_set_claim!(b, key.as_str(), value, via),
                 BOp::RemoveClaim(_) | BOp::ExtendClaims(_) => {}
+                BOp::Sleep(ms) => std::thread::sleep(std::time::Duration::from_millis(*ms)),
                 BOp::Ack => {
                     b.set_no_expiration_danger_acknowledged();
                 }
